@@ -16,6 +16,9 @@ from .core import (
 )
 
 
+_NO_DEFAULT = object()
+
+
 def _undef_if(index, cond=True):
     return Idx.undefined(len(index), index.name) if cond else index
 
@@ -455,7 +458,7 @@ class SymSeries(_RowsMixin, SymBase):
             raise Unsupported("rename index labels")
         return self._with(name=new)
 
-    def reset_index(self, drop=False, name=None, **kw):
+    def reset_index(self, drop=False, name=_NO_DEFAULT, **kw):
         from dask.typing import no_default
 
         if drop:
@@ -463,9 +466,10 @@ class SymSeries(_RowsMixin, SymBase):
         if not self.index_.defined:
             raise Unsupported("reset_index(drop=False) of an undefined index")
         iname = self.index_.name if self.index_.name is not None else "index"
-        sname = self.name if name is None or name is no_default else name
-        if sname is None:
-            sname = 0
+        if name is _NO_DEFAULT or name is no_default:
+            sname = self.name if self.name is not None else 0
+        else:
+            sname = name  # an explicit name=None gives a column labelled None
         cols = [(iname, Col("i", [I(v) for v in self.index_.vals])), (sname, self.col)]
         return SymFrame(cols, self.valid, Idx.undefined(self.nslots), self.prov, self.order)
 
@@ -991,7 +995,7 @@ class SymFrame(_RowsMixin, SymBase):
         return self._with(cols=list(self.cols))
 
     def col(self, key):
-        hits = [c for k, c in self.cols if k == key]
+        hits = [c for k, c in self.cols if k == key or (is_null_literal(k) and is_null_literal(key))]
         if not hits:
             raise StructuralError(f"column {key!r} not in {self.labels}")
         if len(hits) > 1:
@@ -1551,3 +1555,24 @@ def sym_concat(objs, ignore_index=False, axis=0, join="outer", **kw):
         kind = kinds.pop() if len(kinds) == 1 and all(k in o.labels for o in objs) else None
         cols.append((k, Col.from_cells(cells, kind)))
     return SymFrame(cols, valid, index, prov, order)
+
+
+# symbolic values can be operands of real expressions (persist rebuild): give them a stable token
+try:
+    from dask.base import normalize_token
+    import itertools as _it
+
+    _tok_counter = _it.count()
+
+    @normalize_token.register(SymBase)
+    def _normalize_sym(x):
+        t = getattr(x, "_verif_token", None)
+        if t is None:
+            t = f"symdf-{type(x).__name__}-{next(_tok_counter)}"
+            try:
+                object.__setattr__(x, "_verif_token", t)
+            except Exception:
+                pass
+        return t
+except ImportError:  # pragma: no cover
+    pass
